@@ -57,14 +57,17 @@ func drawHTTPReq(e *Env, id int) *httpReq {
 	r := &httpReq{ID: id}
 	r.Method = []string{"GET", "POST", "PUT"}[e.P(3)]
 	r.Target = []string{"/", "/a/b?x=1&y=2", "/" + strings.Repeat("p", 300)}[e.P(3)]
-	r.Proto10 = e.P(5) == 4
+	r.Proto10 = e.P(4) == 3
 	r.ConnHdr = []string{"", "close", "keep-alive"}[e.PB(3, 0.3)]
+	if r.Proto10 && e.P(2) == 1 {
+		r.ConnHdr = "keep-alive" // an HTTP/1.0 client that keeps the connection: later requests are still served
+	}
 	if r.Method != "GET" {
 		r.BodyMode = 1 + e.P(2)
 		if r.Proto10 {
 			r.BodyMode = 1
 		}
-		r.Body = fillPayload(id, []int{12, 0, 1, 700, 5000}[e.P(5)])
+		r.Body = fillPayload(id, []int{12, 0, 1, 700, 5000, 70000}[e.P(6)])
 		for i := range r.Body {
 			r.Body[i] = 'a' + r.Body[i]%26
 		}
